@@ -25,6 +25,7 @@ const goBinDir = "/opt/veriftools/go1.26.8/bin"
 
 type config struct {
 	verifDir string
+	outDir   string // where evidence/ and replays/ are written (VERIF_OUT; default verifDir)
 	repo     string
 	scratch  string
 	tier     string
@@ -111,6 +112,7 @@ func main() {
 	}
 	cfg := &config{
 		verifDir: verifDir,
+		outDir:   envOr("VERIF_OUT", verifDir),
 		repo:     envOr("VERIF_REPO", "/repo"),
 		tier:     *tier,
 		seed:     seed,
